@@ -20,12 +20,16 @@ package client
 //@ spec func minOfDay(s string) int = 60*hmHour(s) + hmMinute(s)
 //@ spec func dayNs() int = 86400000000000
 //@ spec func minNs() int = 60000000000
-//@ spec func winStart(s *schedule, D int) int = D*dayNs() + minOfDay(s.startTime)*minNs()
-//@ spec func winEnd(s *schedule, D int) int = ite(minOfDay(s.endTime) > minOfDay(s.startTime), D, D+1)*dayNs() + minOfDay(s.endTime)*minNs()
+//@ spec func winStartS(start string, D int) int = D*dayNs() + minOfDay(start)*minNs()
+//@ spec func winEndS(start string, end string, D int) int = ite(minOfDay(end) > minOfDay(start), D, D+1)*dayNs() + minOfDay(end)*minNs()
+//@ spec func winStart(s *schedule, D int) int = winStartS(s.startTime, D)
+//@ spec func winEnd(s *schedule, D int) int = winEndS(s.startTime, s.endTime, D)
 //@ spec func dayOfNs(n int) int = fdiv(n, dayNs())
 //@ spec func wdOfDay(D int) int = fmod(D+4, 7)
 //@ spec func wdIn(weekdays []time.Weekday, D int) bool = len(weekdays) <= 0 || (exists k int :: 0 <= k && k < len(weekdays) && int(weekdays[k]) == wdOfDay(D))
 //@ spec func dateParses(d string) bool = rematch(reDate, d) && atoiOK(resub(reDate, d, 1)) && atoiOK(resub(reDate, d, 2)) && atoiOK(resub(reDate, d, 3))
+//@ spec func datesParse(dates []string) bool = forall k int :: 0 <= k && k < len(dates) ==> dateParses(dates[k])
+//@ spec func hmParses(s string) bool = rematch(reHourMin, s) && atoiOK(resub(reHourMin, s, 1)) && atoiOK(resub(reHourMin, s, 2))
 //@ spec func dateIs(d string, D int) bool = atoi(resub(reDate, d, 1)) == calYear(D) && atoi(resub(reDate, d, 2)) == calMonth(D) && atoi(resub(reDate, d, 3)) == calDay(D)
 //@ spec func dateIn(dates []string, D int) bool = len(dates) <= 0 || (exists k int :: 0 <= k && k < len(dates) && dateIs(dates[k], D))
 //@ spec func trIn(tr timeRange, t time.Time) bool = ns(tr.start) <= ns(tr.end) && ns(tr.start) <= ns(t) && ns(t) < ns(tr.end)
@@ -96,6 +100,7 @@ package client
 //@   ensures [C14] err == nil ==> (forall j int :: 0 <= j && j < len(*trs) ==> dateIn(dates, startDay((*trs)[j])))
 //@   ensures [C14] err == nil ==> (forall i int :: 0 <= i && i < old(len(*trs)) && dateIn(dates, old(startDay((*trs)[i]))) ==> (exists j int :: 0 <= j && j < len(*trs) && (*trs)[j] == old((*trs)[i])))
 //@   ensures [C14] set-view: err == nil ==> (forall x timeRange :: memberOf(*trs, x) <==> (old(memberOf(*trs, x)) && dateIn(dates, startDay(x))))
+//@   ensures [C14] no-spurious-error: datesParse(dates) ==> err == nil
 //@   loop 1:
 //@     invariant -1 <= rangeindex && rangeindex < len(*trs) || rangeindex == -1
 //@     invariant len(dates) > 0 && sameSlice(*trs, old(*trs)) && sinceLoop(trsNew)
@@ -153,6 +158,7 @@ package client
 //@   ensures [C14] candidates: err == nil && timesValid(s) ==> (res0 <==> (inWindow(s, t, d0(t)) || inWindow(s, t, d0(t) - 1)))
 //@   ensures [C14] window-sound: err == nil && timesValid(s) && res0 ==> (exists D int :: anyDay(D) && inWindow(s, t, D))
 //@   ensures [C14] window-complete: err == nil && timesValid(s) && (exists D int :: anyDay(D) && inWindow(s, t, D)) ==> res0
+//@   ensures [C14] no-spurious-error: hmParses(s.startTime) && hmParses(s.endTime) && datesParse(s.dates) ==> err == nil
 
 // ---- msg.go: subject parsers (C12: never crash on any subject / payload) ------------------
 //@ func DecodeNodePointsMsg
@@ -430,6 +436,22 @@ package client
 //@ spec func pvNone(rc *RuleClient, j int, nodeID string, pts []data.Point, n int) bool = old(rc.config.Conditions[j].ConditionType) == "pointValue" && (forall k int :: 0 <= k && k < n ==> !old(pvM(rc.config.Conditions, j, nodeID, pts, k))) ==> (rc.config.Conditions[j].Active <==> old(rc.config.Conditions[j].Active))
 //@ spec func condsKept(rc *RuleClient) bool = sameSlice(rc.config.Conditions, old(rc.config.Conditions)) && (forall j int :: 0 <= j && j < len(rc.config.Conditions) ==> condKept(rc.config.Conditions[j], old(rc.config.Conditions[j])))
 
+// Schedule conditions. A trigger point decides the state of a schedule condition whose times and dates parse:
+// active exactly when the trigger's time lies in a window of the condition (C14's window, over the condition's
+// own fields; only the day of the trigger and the day before can own such a window - lemma window_days).
+//@ spec func wdSel(wds []bool, D int) bool = (forall q int :: 0 <= q && q < len(wds) ==> !wds[q]) || (wdOfDay(D) < len(wds) && wds[wdOfDay(D)])
+//@ spec func condWin(c Condition, t time.Time, D int) bool = wdSel(c.Weekdays, D) && dateIn(c.Dates, D) && winStartS(c.Start, D) <= ns(t) && ns(t) < winEndS(c.Start, c.End, D)
+//@ spec func condWindow(c Condition, t time.Time) bool = condWin(c, t, d0(t)) || condWin(c, t, d0(t)-1)
+//@ spec func schedOK(c Condition) bool = hmValid(c.Start) && hmValid(c.End) && datesParse(c.Dates)
+//@ opaque func schT(conds []Condition, j int, pts []data.Point, k int) bool reads conds, pts
+//@ axiom schT_def reads conds, pts: forall conds []Condition, j int, pts []data.Point, k int :: schT(conds, j, pts, k) == (conds[j].ConditionType == "schedule" && pts[k].Type == "trigger")
+//@ opaque func schW(conds []Condition, j int, pts []data.Point, k int) bool reads conds, pts, conds[j].Weekdays, conds[j].Dates
+//@ axiom schW_def reads conds, pts, conds[j].Weekdays, conds[j].Dates: forall conds []Condition, j int, pts []data.Point, k int :: schW(conds, j, pts, k) == condWindow(conds[j], pts[k].Time)
+//@ opaque func schOK(conds []Condition, j int) bool reads conds, conds[j].Dates
+//@ axiom schOK_def reads conds, conds[j].Dates: forall conds []Condition, j int :: schOK(conds, j) == schedOK(conds[j])
+//@ spec func schLatest(rc *RuleClient, j int, pts []data.Point, n int) bool = forall k int :: 0 <= k && k < n && old(schT(rc.config.Conditions, j, pts, k)) && old(schOK(rc.config.Conditions, j)) && (forall k2 int :: k < k2 && k2 < n ==> !old(schT(rc.config.Conditions, j, pts, k2))) ==> (rc.config.Conditions[j].Active <==> old(schW(rc.config.Conditions, j, pts, k)))
+//@ spec func schNone(rc *RuleClient, j int, pts []data.Point, n int) bool = old(rc.config.Conditions[j].ConditionType) == "schedule" && (forall k int :: 0 <= k && k < n ==> !old(schT(rc.config.Conditions, j, pts, k))) ==> (rc.config.Conditions[j].Active <==> old(rc.config.Conditions[j].Active))
+//@ spec func condDone(rc *RuleClient, j int, nodeID string, pts []data.Point, n int) bool = pvLatest(rc, j, nodeID, pts, n) && pvNone(rc, j, nodeID, pts, n) && schLatest(rc, j, pts, n) && schNone(rc, j, pts, n)
 //@ spec func rcKept(rc *RuleClient) bool = rc.nc == old(rc.nc) && rc.config.ID == old(rc.config.ID) && sameSlice(rc.config.Actions, old(rc.config.Actions)) && sameSlice(rc.config.ActionsInactive, old(rc.config.ActionsInactive)) && rc.config.Description == old(rc.config.Description) && rc.config.Parent == old(rc.config.Parent) && rc.config.Active == old(rc.config.Active)
 //@ func (*RuleClient).ruleProcessPoints
 //@   props C13
@@ -445,31 +467,56 @@ package client
 //@   requires rc != nil
 //@   modifies rc, rc.config.Conditions, state(rc.nc)
 //@   cut [C13] shape: 0 <= rangeindex1 && rangeindex1 < len(points) && p == points[rangeindex1] && i == rangeindex2 && 0 <= i && i < len(rc.config.Conditions) && condsKept(rc) && logKept(rc.nc) && rcKept(rc) && condKept(c, rc.config.Conditions[i]) && c.Active == rc.config.Conditions[i].Active at "active != c.Active"
-//@   cut [C13] done: forall j int :: 0 <= j && j < i ==> pvLatest(rc, j, nodeID, points, rangeindex1+1) && pvNone(rc, j, nodeID, points, rangeindex1+1) at "active != c.Active"
-//@   cut [C13] todo: forall j int :: i <= j && j < len(rc.config.Conditions) ==> pvLatest(rc, j, nodeID, points, rangeindex1) && pvNone(rc, j, nodeID, points, rangeindex1) at "active != c.Active"
+//@   cut [C13] done-pv-latest: forall j int :: 0 <= j && j < i ==> pvLatest(rc, j, nodeID, points, rangeindex1+1) at "active != c.Active"
+//@   cut [C13] done-pv-none: forall j int :: 0 <= j && j < i ==> pvNone(rc, j, nodeID, points, rangeindex1+1) at "active != c.Active"
+//@   cut [C13] done-sch-latest: forall j int :: 0 <= j && j < i ==> schLatest(rc, j, points, rangeindex1+1) at "active != c.Active"
+//@   cut [C13] done-sch-none: forall j int :: 0 <= j && j < i ==> schNone(rc, j, points, rangeindex1+1) at "active != c.Active"
+//@   cut [C13] todo-pv-latest: forall j int :: i <= j && j < len(rc.config.Conditions) ==> pvLatest(rc, j, nodeID, points, rangeindex1) at "active != c.Active"
+//@   cut [C13] todo-pv-none: forall j int :: i <= j && j < len(rc.config.Conditions) ==> pvNone(rc, j, nodeID, points, rangeindex1) at "active != c.Active"
+//@   cut [C13] todo-sch-latest: forall j int :: i <= j && j < len(rc.config.Conditions) ==> schLatest(rc, j, points, rangeindex1) at "active != c.Active"
+//@   cut [C13] todo-sch-none: forall j int :: i <= j && j < len(rc.config.Conditions) ==> schNone(rc, j, points, rangeindex1) at "active != c.Active"
 //@   cut [C13] evaluated: c.ConditionType == "pointValue" ==> old(pvM(rc.config.Conditions, i, nodeID, points, rangeindex1)) && (active <==> old(pvH(rc.config.Conditions, i, points, rangeindex1))) at "active != c.Active"
+//@   cut [C13] schedule-evaluated: c.ConditionType == "schedule" ==> old(schT(rc.config.Conditions, i, points, rangeindex1)) && (old(schOK(rc.config.Conditions, i)) ==> (active <==> old(schW(rc.config.Conditions, i, points, rangeindex1)))) at "active != c.Active"
+//@   assert [C13] weekday-list-0: wdIn(weekdays, d0(p.Time)) <==> wdSel(c.Weekdays, d0(p.Time)) at "newSchedule(c.Start, c.End, weekdays, c.Dates)"
+//@   assert [C13] weekday-list-1: wdIn(weekdays, d0(p.Time)-1) <==> wdSel(c.Weekdays, d0(p.Time)-1) at "newSchedule(c.Start, c.End, weekdays, c.Dates)"
 //@   ensures [C13] res2 == nil
 //@   ensures [C13] rule-active: res0 <==> (forall j int :: 0 <= j && j < len(rc.config.Conditions) ==> rc.config.Conditions[j].Active)
 //@   ensures [C13] rule-state: rc.config.Active == res0 && (res1 <==> res0 != old(rc.config.Active))
 //@   ensures [C13] rule-written: logKept(rc.nc) && (res1 ==> sentTo(rc.nc, sentN(rc.nc)-1) == rc.config.ID && sentPt(rc.nc, sentN(rc.nc)-1).Type == "active" && sentPt(rc.nc, sentN(rc.nc)-1).Value == ite(res0, 1.0, 0.0))
 //@   ensures [C13] config-kept: rc.nc == old(rc.nc) && rc.config.ID == old(rc.config.ID) && sameSlice(rc.config.Actions, old(rc.config.Actions)) && sameSlice(rc.config.ActionsInactive, old(rc.config.ActionsInactive)) && rc.config.Description == old(rc.config.Description) && rc.config.Parent == old(rc.config.Parent)
-//@   ensures [C13] point-conditions: condsKept(rc) && (forall j int :: 0 <= j && j < len(rc.config.Conditions) ==> pvLatest(rc, j, nodeID, points, len(points)) && pvNone(rc, j, nodeID, points, len(points)))
+//@   ensures [C13] pv-latest: (forall j int :: 0 <= j && j < len(rc.config.Conditions) ==> pvLatest(rc, j, nodeID, points, len(points)))
+//@   ensures [C13] pv-none: (forall j int :: 0 <= j && j < len(rc.config.Conditions) ==> pvNone(rc, j, nodeID, points, len(points)))
+//@   ensures [C13] sch-latest: (forall j int :: 0 <= j && j < len(rc.config.Conditions) ==> schLatest(rc, j, points, len(points)))
+//@   ensures [C13] sch-none: (forall j int :: 0 <= j && j < len(rc.config.Conditions) ==> schNone(rc, j, points, len(points)))
+//@   ensures [C13] conditions-kept: condsKept(rc)
 //@   loop 1:
 //@     invariant -1 <= rangeindex && rangeindex < len(points) || rangeindex == -1
 //@     invariant condsKept(rc) && logKept(rc.nc) && rcKept(rc)
-//@     invariant forall j int :: 0 <= j && j < len(rc.config.Conditions) ==> pvLatest(rc, j, nodeID, points, rangeindex+1) && pvNone(rc, j, nodeID, points, rangeindex+1)
+//@     invariant forall j int :: 0 <= j && j < len(rc.config.Conditions) ==> pvLatest(rc, j, nodeID, points, rangeindex+1)
+//@     invariant forall j int :: 0 <= j && j < len(rc.config.Conditions) ==> pvNone(rc, j, nodeID, points, rangeindex+1)
+//@     invariant forall j int :: 0 <= j && j < len(rc.config.Conditions) ==> schLatest(rc, j, points, rangeindex+1)
+//@     invariant forall j int :: 0 <= j && j < len(rc.config.Conditions) ==> schNone(rc, j, points, rangeindex+1)
 //@     modifies rc, rc.config.Conditions, state(rc.nc)
 //@     decreases len(points) - rangeindex
 //@   loop 2:
 //@     invariant -1 <= rangeindex && rangeindex < len(rc.config.Conditions) || rangeindex == -1
 //@     invariant 0 <= rangeindex1 && rangeindex1 < len(points) && condsKept(rc) && logKept(rc.nc) && rcKept(rc)
-//@     invariant forall j int :: 0 <= j && j <= rangeindex ==> pvLatest(rc, j, nodeID, points, rangeindex1+1) && pvNone(rc, j, nodeID, points, rangeindex1+1)
-//@     invariant forall j int :: rangeindex < j && j < len(rc.config.Conditions) ==> pvLatest(rc, j, nodeID, points, rangeindex1) && pvNone(rc, j, nodeID, points, rangeindex1)
+//@     invariant forall j int :: 0 <= j && j <= rangeindex ==> pvLatest(rc, j, nodeID, points, rangeindex1+1)
+//@     invariant forall j int :: 0 <= j && j <= rangeindex ==> pvNone(rc, j, nodeID, points, rangeindex1+1)
+//@     invariant forall j int :: 0 <= j && j <= rangeindex ==> schLatest(rc, j, points, rangeindex1+1)
+//@     invariant forall j int :: 0 <= j && j <= rangeindex ==> schNone(rc, j, points, rangeindex1+1)
+//@     invariant forall j int :: rangeindex < j && j < len(rc.config.Conditions) ==> pvLatest(rc, j, nodeID, points, rangeindex1)
+//@     invariant forall j int :: rangeindex < j && j < len(rc.config.Conditions) ==> pvNone(rc, j, nodeID, points, rangeindex1)
+//@     invariant forall j int :: rangeindex < j && j < len(rc.config.Conditions) ==> schLatest(rc, j, points, rangeindex1)
+//@     invariant forall j int :: rangeindex < j && j < len(rc.config.Conditions) ==> schNone(rc, j, points, rangeindex1)
 //@     modifies rc, rc.config.Conditions, state(rc.nc)
 //@     decreases len(rc.config.Conditions) - rangeindex
 //@   loop 3:
 //@     invariant -1 <= rangeindex && rangeindex < len(c.Weekdays) || rangeindex == -1
 //@     invariant isfresh(weekdays) && (refOf(weekdays) == refOf(preloop(weekdays)) || sinceLoop(weekdays))
+//@     invariant forall m int :: 0 <= m && m < len(weekdays) ==> 0 <= int(weekdays[m]) && int(weekdays[m]) <= rangeindex && c.Weekdays[int(weekdays[m])]
+//@     invariant forall q int :: 0 <= q && q <= rangeindex && c.Weekdays[q] ==> (exists m int :: 0 <= m && m < len(weekdays) && int(weekdays[m]) == q)
+//@     invariant len(weekdays) > 0 ==> (exists q int :: 0 <= q && q <= rangeindex && c.Weekdays[q])
 //@     modifies weekdays
 //@     decreases len(c.Weekdays) - rangeindex
 //@   loop 4:
